@@ -21,6 +21,9 @@ CHECKS = {
  'C17': dict(
    text='Tags (arbitrary integers or automatic), the per-object address (k,t) and the absolute pulse number are solver variables; on every path (tag order, validity class, addressed row) z3 decides in linear integer arithmetic that sources and loads act on exactly the row of the printed geometry table the user named, that invalid addresses are refused, that all/all,t load each pulse once and that the listings name the pulse; bounded by the listed models.',
    design='DESIGN.md 3 (C17)'),
+ 'C14': dict(
+   text='One-step cache argument: after a visit at an arbitrary earlier frequency every load impedance (all load kinds, both evaluation orders at a junction of two different wires) equals that of a fresh model, decided by z3 for all frequencies and parameters over uninterpreted Bessel/log/sqrt; frequency/compute histories against a fresh model with an uninterpreted matrix fill; set iteration order is a solver variable for the option/report writers. Three findings repaired.',
+   design='DESIGN.md 3 (C14)'),
  'C16': dict(
    text='For all finite IEEE doubles start/increment in the stated ranges and each listed count, the table sizes are decided bit-precisely in QF_FP on the real grid construction and the point values under the standard model of floating-point arithmetic; far-field angle tables likewise.',
    design='DESIGN.md 3 (C16)',
